@@ -49,6 +49,8 @@ def E(mod, fn, *args, **kw):
     d = {"mod": mod, "fn": fn, "args": list(args)}
     if "then" in kw:
         d["then"] = kw["then"]
+    if "kw" in kw:
+        d["kw"] = kw["kw"]
     return d
 
 
@@ -106,6 +108,16 @@ def build():
             c.append(E("scales", s, t, then=["descending"]))
         c.append(E("scales", s, "D", 2, then=["ascending"]))
         c.append(E("scales", s, "G", then=["degree", 3]))
+    # the same tonic asked with different octave counts and through different classes
+    for s in SCALES:
+        for t in ("C", "D"):
+            for o in (1, 2, 3):
+                c.append(E("scales", s, t, o, then=["ascending"]))
+            c.append(E("scales", s, t, 2, then=["descending"]))
+    for sem in ([3, 7], [2, 6], [1, 5], [4, 7], [3, 6], [2, 5], [1, 4]):
+        for t in ("C", "D", "E"):
+            for o in (1, 2, 3):
+                c.append(E("scales", "Diatonic", t, sem, o, then=["ascending"]))
     c.append(E("scales", "Diatonic", "C", [3, 7], then=["ascending"]))
     for lst in (["C", "D", "E", "F", "G", "A", "B"], ["A", "B", "C", "D", "E", "F", "G"], ["C", "D", "E"], ["C", "D", "Eb", "F", "G", "Ab", "B"]):
         c.append(E("scales", "determine", lst))
@@ -190,6 +202,47 @@ def build():
             c.append(E("meter", fn, m))
     for d in (0, 1, 2, 3, 4, 6, 8, 12, 16, 32, 64, 128, 100):
         c.append(E("meter", "valid_beat_duration", d))
+    # ---- constructors of the container / MIDI classes (the result is the encoded object):
+    # a separately created object must look the same whatever was created before it
+    for args, kw in (
+        (["C"], {}), (["G", 5], {}), (["E", 4], {"velocity": 110, "channel": 9}), (["A", 3, {"velocity": 30}], {}), ([60], {}), (["C-5"], {}),
+        (["Bb", 2], {"channel": 3}), (["F#", 6], {"velocity": 1}), ([], {}), (["H"], {}), (["D", 4, {"channel": 12, "velocity": 99}], {}),
+    ):
+        c.append(E("containers", "Note", *args, kw=kw))
+    c.append(E("containers", "Note", "C", 4, then=["to_hertz"]))
+    c.append(E("containers", "Note", "A", 4, then=["to_shorthand"]))
+    c.append(E("containers", "Note", then=["from_shorthand", "c''"]))
+    c.append(E("containers", "Note", then=["from_hertz", 440]))
+    c.append(E("containers", "Note", then=["from_int", 61]))
+    for args in ([], [["C", "E", "G"]], ["C"], [[["C", 5], ["E", 5, {"velocity": 20}]]], [["G", "B", "D", "F"]]):
+        c.append(E("containers", "NoteContainer", *args))
+    for sh in ("Am", "C7", "F#dim", "Bbsus4"):
+        c.append(E("containers", "NoteContainer", then=["from_chord", sh]))
+    for st, sh, up in (("C", "5", True), ("C", "5", False), ("E", "b3", True), ("G", "7", False)):
+        c.append(E("containers", "NoteContainer", then=["from_interval", st, sh, up]))
+    for num, key in (("VI", "C"), ("V7", "G"), ("ii", "Eb"), ("I", "a")):
+        c.append(E("containers", "NoteContainer", then=["from_progression", num, key]))
+    c.append(E("containers", "NoteContainer", ["C", "E", "G"], then=["determine"]))
+    for args in ([], ["G", [3, 4]], ["eb", [6, 8]], ["C", [0, 0]]):
+        c.append(E("containers", "Bar", *args))
+    c.append(E("containers", "Track"))
+    c.append(E("containers", "Track", then=["from_chords", ["C", ["Am", "Dm"], "G7"], 1]))
+    c.append(E("containers", "Composition"))
+    c.append(E("containers", "Suite"))
+    for cls in ("Instrument", "Piano", "Guitar", "MidiInstrument", "MidiPercussionInstrument"):
+        c.append(E("instrument", cls))
+    c.append(E("instrument", "MidiInstrument", "Violin"))
+    c.append(E("instrument", "Piano", then=["note_in_range", "C"]))
+    c.append(E("instrument", "Guitar", then=["can_play_notes", ["E", "A", "D"]]))
+    c.append(E("midi_track", "MidiTrack"))
+    c.append(E("midi_track", "MidiTrack", 90))
+    c.append(E("midi_track", "MidiTrack", then=["get_midi_data"]))
+    for n in (0, 127, 128, 16383, 16384, 2097151, 2097152):
+        c.append(E("midi_track", "MidiTrack", then=["int_to_varbyte", n]))
+    c.append(E("midi_file_out", "MidiFile"))
+    c.append(E("midi_file_out", "MidiFile", then=["get_midi_data"]))
+    c.append(E("midi_file_in", "MidiFile"))
+    c.append(E("sequencer", "Sequencer"))
     return c
 
 
